@@ -269,7 +269,11 @@ func (p *Parser) parseStmt(allowDeclaration bool) (stmt IStmt) {
 	case LetToken:
 		let := p.data
 		p.next()
-		if allowDeclaration && (IsIdentifier(p.tt) || p.tt == YieldToken || p.tt == AwaitToken || p.tt == OpenBracketToken || p.tt == OpenBraceToken) {
+		if p.tt == ColonToken {
+			// let is an identifier, here the label of a statement
+			p.next()
+			stmt = &LabelledStmt{let, p.parseStmt(true)}
+		} else if allowDeclaration && (IsIdentifier(p.tt) || p.tt == YieldToken || p.tt == AwaitToken || p.tt == OpenBracketToken || p.tt == OpenBraceToken) {
 			stmt = p.parseVarDecl(tt, false)
 			if !p.prevLT && p.tt != SemicolonToken && p.tt != CloseBraceToken && p.tt != ErrorToken {
 				p.fail("let declaration")
@@ -541,7 +545,11 @@ func (p *Parser) parseStmt(allowDeclaration bool) (stmt IStmt) {
 	case AsyncToken: // async function
 		async := p.data
 		p.next()
-		if p.tt == FunctionToken && !p.prevLT {
+		if p.tt == ColonToken {
+			// async is an identifier, here the label of a statement
+			p.next()
+			stmt = &LabelledStmt{async, p.parseStmt(true)}
+		} else if p.tt == FunctionToken && !p.prevLT {
 			if !allowDeclaration {
 				p.fail("statement")
 				return
